@@ -270,6 +270,19 @@ MALFORMED = [
     "bytes=" + " " * 300 + "5-7", "bytes=5-7" + "," * 3, "bytes=" + "-" * 50,
 ]
 
+MALFORMED += [   # checklist 7: escapes, entity-like text, braces, hex/base64/JSON/booleans, NUL, one byte
+    "bytes=0%2D5", "bytes%3D0-5", "bytes=0&#45;5", "bytes=0&minus;5", "bytes=&nbsp;0-5", "bytes=&#0;", "bytes={0}-{1}",
+    "bytes={first}-", "bytes=}0-5{", "bytes=0x0-0xff", "bytes=MC01", "bytes=[0,5]", '{"bytes":"0-5"}', "bytes=true-null",
+    "bytes=null", "bytes=0-5\x00", "\x00bytes=0-5", "bytes=\x000-5", "b", "-", "=", "0", "bytes=0-5&bytes=6-7",
+    "bytes=0-5;bytes=6-7", "bytes=0+5", "bytes=0 5", "bytes==0-5", "bytes=0=5", "bytes=\xc3\xa90-5", "bytes=0-5\xe2\x80\x8b",
+    "bytes=" + "7" * 1024 + "-", "bytes=0-" + "7" * 4095, "bytes=-" + "0" * 4096,
+]
+HUGE = [         # very long header values (pure channel and one end-to-end resource)
+    "bytes=" + "1" * 4297 + "-5", "bytes=5-" + "0" * 4294 + "9", "bytes=" + "x" * 65535, "bytes=0-5" + " " * 65536,
+    " " * 65537 + "bytes=0-5", "bytes=" + "1-2," * 16384, "bytes=0-+" + "9" * 65536, "b" * (1 << 20), "bytes=" + "-" * (1 << 20),
+    "bytes=+" + "0" * (1 << 20) + "-",
+]
+
 UNICODE = [  # outside the model's domain (code points above U+00FF): judged by the oracle only
     "bytes=\u0661-\u0665", "bytes=\uff10-\uff15", "bytes=-\u0665", "bytes=\u0663-", "bytes=0\u20135", "bytes=\u22125",
     "\uff42ytes=0-5", "bytes=5-7\u2003", "bytes=\u30005-7", "bytes=0-5\u200b", "byte\u017f=0-5", "BYTE\u017f=0-5",
@@ -365,7 +378,9 @@ def call_pure(hdr, length):
     headers = {} if hdr is None else {"Range": hdr}
     try:
         ctx = app.test_request_context("/", headers=headers)
-    except Exception as e:    # Werkzeug refuses the header value (CR/LF): cannot reach the code
+    except ValueError as e:    # Werkzeug refuses the header value (CR/LF): cannot reach the code
+        if "newline" not in str(e):
+            raise
         return ("undeliverable", type(e).__name__)
     with ctx:
         try:
@@ -461,6 +476,15 @@ def pure_cases(ctx):
     lens = [0, 1, 2, 3, 10, 100, 1027, 48861, 491720, 2 ** 31, 2 ** 63 - 1, 2 ** 63]
     lens += [rng.randrange(0, 3000) for _ in range(ctx.scale(2, 10))]
     cases = []
+    # checklist 2: every power-of-two / validator boundary +-1 as first, last and suffix, against
+    # resource lengths on the same boundaries (fixed grid)
+    wide = sorted({b + d for b in (2 ** 31, 2 ** 32, 2 ** 33, 2 ** 53, 2 ** 63, 4096, 10000, 16384, 65535, 65536, 100000)
+                   for d in (-1, 0, 1)})
+    for n in (4096, 65536, 2 ** 32, 2 ** 32 + 1, 2 ** 53 + 1, 2 ** 63 - 1):
+        for v in wide:
+            cases += [(f"bytes={v}-", n), (f"bytes=-{v}", n), (f"bytes=0-{v}", n), (f"bytes={v}-{v}", n),
+                      (f"bytes={v}-{v + 1}", n), (f"bytes={v + 1}-{v}", n)]
+    cases += [(h, n) for n in (10, 4097) for h in HUGE]
     for n in lens:
         cases.append((None, n))
         cases += [(h, n) for h in boundary_headers(n)]
@@ -666,6 +690,9 @@ def option_resources(ctx, app, client, ch=None):
     k = rng.randrange(1, 11)
     for q in ["events=ping", "events=scte35", "events=ping,scte35"][: 3 if many else 2]:
         cands.append(("events", vod("bbb", "bbb_v7", k, "m4v", q), vod("bbb", "bbb_v7", k, "m4v")))
+    # -- falsy but legal option values
+    cands.append(("falsy-options", vod("bbb", "bbb_v7", k, "m4v", f"vcorrupt={k}&frames=0"), None))
+    cands.append(("falsy-options", vod("bbb", "bbb_v7", k, "m4v", "events=&vcorrupt=&drm=none"), None))
     if many:
         cands.append(("events", vod("tears", "tears_v1", rng.randrange(1, 17), "m4v", "events=ping&vcorrupt=1,2,3"), None))
     # -- DRM variants of encrypted representations, bug compatibility
@@ -734,7 +761,7 @@ def compact_headers(ctx, res: Resource, rng):
     for a in vs:
         hs += [f"bytes={a}-", f"bytes=-{a}"]
         hs += [f"bytes={a}-{b}" for b in vs]
-    hs += header_region_headers(rng, n)
+    hs += header_region_headers(rng, n) + buffer_edge_headers(n)
     for w in rng.sample(VARIANT_WRAPS, 3):
         hs.append(w(rng.choice(vs), rng.choice(vs + [""])))
     hs += rng.sample(MALFORMED + UNICODE, ctx.scale(10, 40))
@@ -794,12 +821,12 @@ def judge_e2e(client, res: Resource, hdr):
     return o, judge(hdr, res.length, obs_e2e(o, res), res.mandatory)
 
 
-def e2e_failure(client, res, hdr, why, o, shrink=True, clock=None):
+def e2e_failure(client, res, hdr, why, o, shrink=True, clock=None, extra=None):
     mini = shrink_header(hdr, lambda h: (judge_e2e(client, res, h)[1] is not None), budget=120) if shrink else hdr
     o2, w2 = judge_e2e(client, res, mini)
     if w2 is None:
         mini, o2, w2 = hdr, o, why
-    return {"kind": "e2e", "url": res.url, "header": hdr_json(mini), "clock": clock or CLOCK0, "length": res.length,
+    return {**(extra or {}), "kind": "e2e", "url": res.url, "header": hdr_json(mini), "clock": clock or CLOCK0, "length": res.length,
             "what": w2, "observed": {"status": o2["status"], "content_range": o2["cr"],
                                      "content_length": o2["clen"], "body_len": len(o2["body"])}}
 
@@ -809,8 +836,13 @@ def e2e_headers(ctx, res: Resource, rng):
     hs = [None]
     if ctx.thorough or n < 5000:
         hs += boundary_headers(n)
-    else:   # quick: all open/suffix forms, a seeded third of the pairs
-        hs += boundary_headers(n, pairs=lambda pr: [p for p in pr if rng.random() < .25])
+    else:   # quick: all open/suffix forms, every pair of the core values, a seeded part of the other pairs
+        core = {0, 1, n // 2, n - 2, n - 1, n, n + 1}
+        hs += boundary_headers(n, pairs=lambda pr: [p for p in pr if (p[0] in core and p[1] in core)
+                                                    or rng.random() < .12])
+    hs += header_region_headers(rng, n) + buffer_edge_headers(n)
+    if True:
+        pass
     vs = boundary_values(n)
     for w in VARIANT_WRAPS:
         hs.append(w(rng.choice(vs), rng.choice(vs + [""])))
@@ -819,6 +851,7 @@ def e2e_headers(ctx, res: Resource, rng):
     hs += [random_header(rng, n) for _ in range(ctx.scale(25, 150))]
     if n < 5000:
         hs += latin1_sweep()[:: (1 if ctx.thorough else 9)]
+        hs += HUGE
     return hs
 
 
@@ -831,97 +864,167 @@ BOUNDARY_CLOCKS = [
     ("mar-1-non-leap", "2023-03-01T05:00:00Z"), ("first-of-month", "2024-07-01T00:30:00Z"),
     ("first-minute-of-day", "2024-05-17T00:00:20Z"), ("ordinary", "2024-05-17T13:45:31Z"),
 ]
+# checklist 3: sub-second phases, far past and far future (a reduced set of start kinds each)
+SUBSECOND_CLOCKS = [
+    ("phase-.000001", "2024-01-01T00:00:00.000001Z"), ("phase-.25", "2024-05-17T13:45:31.25Z"),
+    ("phase-.499999", "2024-05-17T13:45:31.499999Z"), ("phase-.5", "2024-02-29T23:59:59.5Z"),
+    ("phase-.75", "2024-05-17T00:00:59.75Z"), ("phase-.999999", "2024-12-31T23:59:59.999999Z"),
+]
+FAR_CLOCKS = [
+    ("year-0100", "0100-01-01T00:00:30Z"), ("year-1479", "1479-12-31T23:59:59Z"), ("year-1900", "1900-03-01T00:00:00Z"),
+    ("year-1970-first-seconds", "1970-01-01T00:00:05Z"), ("ntp-era-2036", "2036-02-07T06:28:16Z"),
+    ("y2038", "2038-01-19T03:14:08Z"), ("tkhd-2040", "2040-02-06T06:28:16Z"), ("year-2100", "2100-03-01T00:00:00Z"),
+    ("year-9999", "9999-12-31T23:59:59Z"),
+]
 START_KINDS = ["epoch", "year", "month", "today", "now", "explicit", "explicit-offset", "explicit-just-started"]
+REDUCED_KINDS = ["epoch", "month", "today", "now", "explicit-offset-neg"]
+# stream age 0, 1 s, below / at / above the default and the 30 min time-shift depth; the clock exactly on a
+# segment and a loop boundary of the 40 s bbb media after 1 .. 10^5 loops (ordinary clock only)
+AGE_KINDS = [f"age-{a}" for a in (0, 1, 4, 59, 60, 61, 1799, 1800, 1801)] + [f"loops-{n}" for n in (1, 10, 1000, 100000)]
 SMALL_HEADERS = [None, "bytes=0-99", "bytes=20-79", "bytes=0-", "bytes=-1", "bytes=-99999999", "bytes=5-99999999",
                  "bytes=99999999-", "bytes=7-5", "bytes=-0", "Bytes= 3 - 9 ", "bytes=a-b", "bytes=0-1,4-5"]
 
 
 def _utc(iso):
+    """'YYYY-MM-DDTHH:MM:SS[.ffffff]Z' -> aware datetime (years 1..9999)"""
     import datetime
-    return datetime.datetime.strptime(iso, "%Y-%m-%dT%H:%M:%SZ").replace(tzinfo=datetime.timezone.utc)
+    m = re.fullmatch(r"(\d{4})-(\d\d)-(\d\d)T(\d\d):(\d\d):(\d\d)(?:\.(\d{1,6}))?Z", iso)
+    y, mo, d, h, mi, sec = (int(x) for x in m.groups()[:6])
+    us = int((m.group(7) or "0").ljust(6, "0"))
+    return datetime.datetime(y, mo, d, h, mi, sec, us, tzinfo=datetime.timezone.utc)
+
+
+def _iso(t):
+    return f"{t.year:04d}-{t.month:02d}-{t.day:02d}T{t.hour:02d}:{t.minute:02d}:{t.second:02d}"
 
 
 def start_candidates(kind, now):
-    """(query value, [candidate availabilityStartTime ...]) from the documented meaning of the start
-    keywords – only used to guess which segment numbers could be available; a wrong guess costs a
-    404, never a verdict"""
+    """(query value or None, [candidate availabilityStartTime ...]) from the documented meaning of the
+    start keywords – only used to guess which segment numbers could be available; a wrong guess
+    costs a 404, never a verdict"""
     import datetime
     day = datetime.timedelta(days=1)
-    midnight = now.replace(hour=0, minute=0, second=0, microsecond=0)
+    sec = datetime.timedelta(seconds=1)
+    whole = now.replace(microsecond=0)
+    midnight = whole.replace(hour=0, minute=0, second=0)
+
+    def back(t, d):
+        try:
+            return t - d
+        except OverflowError:
+            return t
     if kind == "epoch":
         return "epoch", [datetime.datetime(1970, 1, 1, tzinfo=datetime.timezone.utc)]
     if kind == "today":
-        return "today", [midnight, midnight - day]
+        return "today", [midnight, back(midnight, day)]
     if kind == "month":
         m = midnight.replace(day=1)
-        return "month", [m, m - day]
+        return "month", [m, back(m, day)]
     if kind == "year":
         y = midnight.replace(month=1, day=1)
-        return "year", [y, y - day]
+        return "year", [y, back(y, day)]
     if kind == "now":
         from dashlive.mpeg.dash.timing import DashTiming
-        return "now", [now - datetime.timedelta(seconds=DashTiming.DEFAULT_TIMESHIFT_BUFFER_DEPTH), now - day]
+        return "now", [back(whole, sec * DashTiming.DEFAULT_TIMESHIFT_BUFFER_DEPTH), back(whole, day)]
     if kind == "explicit":
-        t = now - datetime.timedelta(hours=3, minutes=11, seconds=4)
-        return t.strftime("%Y-%m-%dT%H:%M:%SZ"), [t]
-    if kind == "explicit-offset":
-        t = now - datetime.timedelta(days=2, seconds=1)
-        local = t + datetime.timedelta(hours=5, minutes=30)
-        return local.strftime("%Y-%m-%dT%H:%M:%S") + "%2B05:30", [t]
-    t = now - datetime.timedelta(seconds=23)          # the first seconds of a stream's life
-    return t.strftime("%Y-%m-%dT%H:%M:%SZ"), [t, t - day]
+        t = back(whole, datetime.timedelta(hours=3, minutes=11, seconds=4))
+        return _iso(t) + "Z", [t]
+    if kind in ("explicit-offset", "explicit-offset-neg"):
+        t = back(whole, datetime.timedelta(days=2, seconds=1))
+        off, text = ((330, "%2B05:30") if kind == "explicit-offset" else (-210, "-03:30"))
+        try:
+            local = t + datetime.timedelta(minutes=off)
+        except OverflowError:
+            return _iso(t) + "Z", [t]
+        return _iso(local) + text, [t]
+    if kind.startswith("age-"):
+        t = back(whole, sec * int(kind[4:]))
+        return _iso(t) + "Z", [t, back(t, day)]
+    if kind.startswith("loops-"):
+        t = back(whole, sec * 40 * int(kind[6:]))
+        return _iso(t) + "Z", [t]
+    t = back(whole, sec * 23)          # the first seconds of a stream's life
+    return _iso(t) + "Z", [t, back(t, day)]
+
+
+def find_live_segment(client, ch, iso, now, name, ext, segdur, ts, kind, stream="bbb", query=None, asts=None,
+                      tag=None, context=None):
+    """probe the segment numbers that could be available; any 5xx met on the way is a failure of the
+    property (an absent header must give the full body, never a 5xx)"""
+    if asts is None:
+        qv, asts = start_candidates(kind, now)
+        query = f"start={qv}"
+    found = None
+    probed = 0
+    cands = []
+    for ast in asts:
+        n = int((now - ast).total_seconds() * ts // segdur)
+        cands += [k for k in (n - 2, n - 4, n - 1) if k >= 1]
+    for k in cands + [1]:
+        if found or (k == 1 and probed):
+            break
+        u = f"/dash/live/{stream}/{name}/{k}.{ext}" + (f"?{query}" if query else "")
+        r = client.get(u)
+        probed += 1
+        if r.status_code >= 500:
+            ch.evaluations += 1
+            _record(ch.oracle_failures, ch, "oracle_failures",
+                    dict({"kind": "e2e", "url": u, "header": None, "clock": iso, "length": None,
+                          "what": f"status {r.status_code} (5xx) for a media segment request without a Range header",
+                          "observed": {"status": r.status_code, "content_range": None,
+                                       "content_length": r.headers.get("Content-Length"),
+                                       "body_len": len(r.data)}}, **(context or {})))
+        elif r.status_code == 200:
+            found = Resource("seg", u, r.data, False, tag=tag or f"live:start={kind}", light=True)
+    return found
 
 
 def live_clock_resources(ctx, app, client, clk, ch: Channel, rng):
-    """one live media-segment URL per (clock, start kind): clocks at calendar boundaries plus ordinary
-    and seeded ones.  Yields (Resource, clock iso) with the clock left set for the caller.  Any 5xx
-    met while looking for an available segment is itself a failure of the property (absent header
-    must give the full body, never a 5xx)."""
+    """one live media-segment URL per (clock, start kind) of a fixed grid: clocks at calendar
+    boundaries x every start kind; sub-second phases, far past / far future and seeded clocks x a
+    reduced set of kinds; stream ages and loop boundaries at the ordinary clock.  Yields
+    (Resource, clock iso, label) with the clock left set for the caller."""
     import datetime
     media = []
     with app.ctx() as models:
         for name, ext in (("bbb_t1", "mp4"), ("bbb_a1", "m4a"), ("bbb_v7", "m4v")):
             rep = models.MediaFile.get(name=name).representation
             media.append((name, ext, rep.segment_duration, rep.timescale))
-    clocks = list(BOUNDARY_CLOCKS)
+    grid = [(label, iso, START_KINDS) for label, iso in BOUNDARY_CLOCKS]
+    grid += [(label, iso, REDUCED_KINDS) for label, iso in SUBSECOND_CLOCKS + FAR_CLOCKS]
+    grid.append(("ordinary-ages-and-loops", "2024-05-17T13:45:31Z", AGE_KINDS))
+    grid.append(("segment-boundary-.0", "2024-05-17T13:46:40Z", ["loops-1000", "age-60", "epoch"]))
     for _ in range(ctx.scale(2, 8)):
         t = datetime.datetime(2021, 1, 1, tzinfo=datetime.timezone.utc) + datetime.timedelta(
-            seconds=rng.randrange(0, 17 * 365 * 86400))
-        clocks.append(("seeded", t.strftime("%Y-%m-%dT%H:%M:%SZ")))
+            seconds=rng.randrange(0, 17 * 365 * 86400), microseconds=rng.randrange(0, 10 ** 6))
+        grid.append(("seeded", _iso(t) + f".{t.microsecond:06d}Z", START_KINDS))
     i = 0
-    for label, iso in clocks:
+    for label, iso, kinds in grid:
         now = _utc(iso)
-        clk.set(iso)
-        for kind in START_KINDS:
+        clk.set(now)
+        for kind in kinds:
+            if kind == "epoch" and now.year < 1970:
+                continue
             name, ext, segdur, ts = media[i % 3] if ctx.thorough else media[(0, 0, 1)[i % 3]]
             i += 1
-            qv, asts = start_candidates(kind, now)
-            found = None
-            tried = 0
-            for ast in asts:
-                n = int((now - ast).total_seconds() * ts // segdur)
-                for k in (n - 2, n - 4, n - 1):
-                    if k < 1 or found:
-                        continue
-                    u = f"/dash/live/bbb/{name}/{k}.{ext}?start={qv}"
-                    r = client.get(u)
-                    tried += 1
-                    if r.status_code >= 500:
-                        ch.evaluations += 1
-                        _record(ch.oracle_failures, ch, "oracle_failures",
-                                {"kind": "e2e", "url": u, "header": None, "clock": iso, "length": None,
-                                 "what": f"status {r.status_code} (5xx) for a media segment request without a Range header",
-                                 "observed": {"status": r.status_code, "content_range": None,
-                                              "content_length": r.headers.get("Content-Length"),
-                                              "body_len": len(r.data)}})
-                    elif r.status_code == 200:
-                        found = Resource("seg", u, r.data, False, tag=f"live:start={kind}", light=True)
+            found = find_live_segment(client, ch, iso, now, name, ext, segdur, ts, kind)
             ch.count(f"live-clock:{label}")
             if found is None:
-                ch.count(f"live-unavailable:start={kind}")
+                ch.count(f"live-unavailable:{label}:start={kind}")
                 continue
-            ch.count(f"live-start:{kind}")
+            ch.count(f"live-start:{kind.split('-')[0] if kind.startswith(('age', 'loops')) else kind}")
             yield found, iso, label
+
+
+def buffer_edge_headers(n):
+    """checklist 2/4: ranges touching and crossing the buffer sizes used when the body is produced
+    (4096 file buffer, 16384 BufferedReader window, 65536), where the resource is long enough"""
+    hs = []
+    for b in (4096, 16384, 65536):
+        if n > b + 2:
+            hs += [f"bytes={b - 1}-{b + 1}", f"bytes=0-{b - 1}", f"bytes={b}-", f"bytes={b - 1}-{b - 1}", f"bytes=-{n - b}"]
+    return hs
+
 
 def header_region_headers(rng, n, extra=3):
     """ranges over the first bytes of a segment (styp/sidx/moof: mfhd sequence number, tfdt decode
@@ -997,7 +1100,7 @@ def sibling_groups(ctx, app, client, ch=None):
     return groups
 
 
-def run_group(ctx, client, ch: Channel, tag, urls, rng):
+def run_group(ctx, client, ch: Channel, tag, urls, rng, other=None):
     """interleaved history: every ranged request for one URL directly follows a (ranged or un-ranged)
     request for a sibling made from the same stored fragment; the full representation of each URL
     is fetched before AND after the whole sequence and every answer is judged against its own URL"""
@@ -1022,7 +1125,8 @@ def run_group(ctx, client, ch: Channel, tag, urls, rng):
                 sib = order[j - 1]
                 client.get(sib)
                 history.append([sib, None])
-            o = e2e_get(client, Resource("seg", u, before[u], False), h)
+            who = other if (other is not None and (i + j) % 2) else client
+            o = e2e_get(who, Resource("seg", u, before[u], False), h)
             if o is None:
                 continue
             history.append([u, h])
@@ -1099,7 +1203,7 @@ def seq_failure(client, url, hdr, history, why, o, shrink=True):
                          "body_len": len(o["body"])}}
 
 
-def run_resource(ctx, client, ch: Channel, res: Resource, hs, clock):
+def run_resource(ctx, client, ch: Channel, res: Resource, hs, clock, extra=None):
     """all headers of `hs` on one resource at the current clock: model comparison + oracle"""
     ch.count(f"route/options:{res.tag}", len(hs))
     if res.altered:
@@ -1127,12 +1231,12 @@ def run_resource(ctx, client, ch: Channel, res: Resource, hs, clock):
         if why is not None:
             _record(ch.oracle_failures, ch, "oracle_failures",
                     lambda: e2e_failure(client, res, h, why, o, shrink=len(ch.oracle_failures) < MAX_SHRUNK,
-                                        clock=clock))
+                                        clock=clock, extra=extra))
         if i in model:
             impl = canon_e2e(o, res, model[i])
             if impl != model[i]:
                 _record(ch.disagreements, ch, "disagreements",
-                        {"kind": "e2e", "url": res.url, "header": hdr_json(h), "clock": clock,
+                        {**(extra or {}), "kind": "e2e", "url": res.url, "header": hdr_json(h), "clock": clock,
                          "model": model[i], "impl": impl})
             if o["status"] in (206, 416):
                 ch.nontrivial.add((res.url, h))
@@ -1145,11 +1249,224 @@ def run_resource(ctx, client, ch: Channel, res: Resource, hs, clock):
                        "content_length": o["clen"]}, limit=4)
 
 
+# ---- checklist 5: options given by stored stream defaults ----------------------------------
+
+STREAM_DEFAULTS = {"availabilityStartTime": "month", "timeShiftBufferDepth": 120, "eventTypes": ["ping"],
+                   "ping": {"count": 3, "duration": 150}, "videoCorruption": ["2", "3"],
+                   "videoCorruptionFrameCount": 2, "bugCompatibility": ["saio"]}
+
+
+class stream_defaults:
+    """context manager: store defaults on a stream through the models, clear them afterwards"""
+
+    def __init__(self, app, stream, defaults):
+        self.app, self.stream, self.defaults = app, stream, defaults
+
+    def _set(self, value):
+        with self.app.ctx() as models:
+            models.Stream.get(directory=self.stream).defaults = value
+            models.db.session.commit()
+
+    def __enter__(self):
+        self._set(dict(self.defaults))
+        return self
+
+    def __exit__(self, *a):
+        self._set(None)
+        return False
+
+
+def run_stream_defaults(ctx, app, client, clk, ch: Channel, rng):
+    """URLs WITHOUT options on a stream whose stored defaults select start=month, in-band events,
+    video corruption of segments 2 and 3 and a bug-compatibility mode"""
+    extra = {"stream_defaults": {"stream": "tears", "defaults": STREAM_DEFAULTS}}
+    with app.ctx() as models:
+        reps = {}
+        for name, ext in (("tears_v1", "m4v"), ("tears_a1", "m4a")):
+            rep = models.MediaFile.get(name=name).representation
+            reps[name] = (ext, rep.segment_duration, rep.timescale)
+    plain = client.get("/dash/vod/tears/tears_v1/3.m4v").data
+    n = 0
+    with stream_defaults(app, "tears", STREAM_DEFAULTS):
+        for label, iso in (("jan-1-daytime", "2024-01-01T10:15:07Z"), ("first-of-month", "2024-07-01T00:30:00Z"),
+                           ("ordinary", "2024-05-17T13:45:31Z"))[: 3 if ctx.thorough else 2]:
+            now = _utc(iso)
+            clk.set(now)
+            found = []
+            for k in (3, 5):
+                r = client.get(f"/dash/vod/tears/tears_v1/{k}.m4v")
+                if r.status_code == 200:
+                    found.append(Resource("seg", f"/dash/vod/tears/tears_v1/{k}.m4v", r.data, False,
+                                          tag="stream-defaults", light=True, altered=(k == 3 and r.data != plain)))
+                elif r.status_code >= 500:
+                    ch.oracle_failures.append({**extra, "kind": "e2e", "url": f"/dash/vod/tears/tears_v1/{k}.m4v",
+                                               "header": None, "clock": iso, "what": f"status {r.status_code} (5xx)",
+                                               "observed": {"status": r.status_code}})
+            _, asts = start_candidates("month", now)
+            for name, (ext, segdur, ts) in reps.items():
+                res = find_live_segment(client, ch, iso, now, name, ext, segdur, ts, "month", stream="tears",
+                                        query="", asts=asts, tag="stream-defaults", context=extra)
+                if res is not None:
+                    found.append(res)
+            for res in found:
+                n += 1
+                hs = compact_headers(ctx, res, rng) if (ctx.thorough or n == 1) else \
+                    SMALL_HEADERS + header_region_headers(rng, res.length, extra=2) + buffer_edge_headers(res.length)
+                run_resource(ctx, client, ch, res, hs, iso, extra=extra)
+    clk.set(_utc(CLOCK0))
+    if n < 4:
+        ch.errors.append(f"only {n} URLs of the stream with stored defaults answered 200")
+
+
+# ---- checklist 6: follow the server's own output -------------------------------------------
+
+_NS = "{urn:mpeg:dash:schema:mpd:2011}"
+
+
+def _xs_duration(text):
+    m = re.fullmatch(r"P(?:(\d+)D)?T?(?:(\d+)H)?(?:(\d+)M)?(?:(\d+(?:\.\d+)?)S)?", text or "PT0S")
+    d, h, mi, sec = (float(x) if x else 0.0 for x in m.groups())
+    return ((d * 24 + h) * 60 + mi) * 60 + sec
+
+
+def manifest_urls(client, manifest_url, now):
+    """media URLs and byte ranges exactly as the manifest spells them: BaseURL resolution, template
+    substitution, query string kept.  → [("seg", url)] and [("od", url, [range text …])]"""
+    import xml.etree.ElementTree as ET
+    from urllib.parse import urljoin, urlsplit
+    r = client.get(manifest_url)
+    if r.status_code != 200:
+        return []
+    root = ET.fromstring(r.data)
+    out = []
+    dynamic = root.get("type") == "dynamic"
+    ast = None
+    if dynamic and root.get("availabilityStartTime"):
+        ast = _utc(re.sub(r"(\.\d+)?Z$", "Z", root.get("availabilityStartTime")))
+    doc_base = urljoin("http://localhost" + manifest_url.split("?")[0], (root.findtext(_NS + "BaseURL") or "").strip())
+
+    def local(u):
+        sp = urlsplit(u)
+        return sp.path + (("?" + sp.query) if sp.query else "")
+    for period in root.findall(_NS + "Period"):
+        pbase = urljoin(doc_base, (period.findtext(_NS + "BaseURL") or "").strip())
+        pstart = _xs_duration(period.get("start"))
+        for aset in period.findall(_NS + "AdaptationSet"):
+            reps = aset.findall(_NS + "Representation")
+            if not reps:
+                continue
+            rep = reps[0]
+            tmpl = rep.find(_NS + "SegmentTemplate") or aset.find(_NS + "SegmentTemplate")
+            if tmpl is None:
+                tmpl = rep.find(_NS + "SegmentTemplate")
+            seglist = rep.find(_NS + "SegmentList")
+            if seglist is not None:
+                url = local(urljoin(pbase, (rep.findtext(_NS + "BaseURL") or "").strip()))
+                ranges = []
+                init = seglist.find(_NS + "Initialization")
+                if init is not None and init.get("range"):
+                    ranges.append(init.get("range"))
+                ranges += [su.get("mediaRange") for su in seglist.findall(_NS + "SegmentURL") if su.get("mediaRange")]
+                out.append(("od", url, ranges))
+                continue
+            if tmpl is None or not tmpl.get("media"):
+                continue
+            media = tmpl.get("media").replace("$RepresentationID$", rep.get("id"))
+            ts = int(tmpl.get("timescale", "1"))
+            if "$Time$" in media:
+                tl = tmpl.find(_NS + "SegmentTimeline")
+                times, t = [], 0
+                for sel in (tl.findall(_NS + "S") if tl is not None else []):
+                    t = int(sel.get("t", t))
+                    for _ in range(int(sel.get("r", "0")) + 1):
+                        times.append(t)
+                        t += int(sel.get("d"))
+                if not times:
+                    continue
+                media = media.replace("$Time$", str(times[max(0, len(times) - 3)]))
+            elif "$Number$" in media:
+                sn = int(tmpl.get("startNumber", "1"))
+                if dynamic and ast is not None and tmpl.get("duration"):
+                    el = (now - ast).total_seconds() - pstart
+                    num = sn + int(el * ts // int(tmpl.get("duration"))) - 3
+                else:
+                    num = sn + 1
+                media = media.replace("$Number$", str(max(sn, num)))
+            out.append(("seg", local(urljoin(pbase, media))))
+    return out
+
+
+def run_manifest_following(ctx, app, client, clk, ch: Channel, rng):
+    _ensure_mps(app)
+    n = 0
+    plan = [(CLOCK0, "/dash/vod/bbb/hand_made.mpd"), (CLOCK0, "/dash/odvod/bbb/hand_made.mpd"),
+            (CLOCK0, f"/mps/vod/{MPS_NAME}/hand_made.mpd"),
+            ("2024-03-01T00:00:10Z", "/dash/live/bbb/hand_made.mpd?start=today&events=ping"),
+            ("2024-05-17T13:45:31Z", "/dash/live/tears/hand_made.mpd?timeline=1&start=month&depth=90"),
+            ("2024-05-17T13:45:31Z", f"/mps/live/{MPS_NAME}/hand_made.mpd?start=today&timeline=1")]
+    if ctx.thorough:
+        plan += [(CLOCK0, "/dash/odvod/tears/hand_made.mpd"), (CLOCK0, "/dash/vod/tears/manifest_e.mpd?timeline=1"),
+                 ("2024-01-01T00:00:30Z", "/dash/live/bbb/manifest_e.mpd?start=year&drm=all")]
+    for iso, murl in plan:
+        now = _utc(iso)
+        clk.set(now)
+        try:
+            items = manifest_urls(client, murl, now)
+        except Exception as e:
+            ch.errors.append(f"manifest {murl}: {type(e).__name__}: {e}")
+            continue
+        if not items:
+            ch.count(f"manifest-without-media-urls:{murl.split('?')[0]}")
+        for item in items[: 6 if ctx.thorough else 3]:
+            if item[0] == "od":
+                _, url, ranges = item
+                parts = url.split("?")[0].split("/")
+                fp = _fixture_path(parts[3], parts[4].rsplit(".", 1)[0])
+                if not fp.exists():
+                    continue
+                res = Resource("od", url, fp.read_bytes(), True, tag="manifest:odvod-ranges", light=True)
+                hs = [None] + [f"bytes={x}" for x in ranges]
+            else:
+                url = item[1]
+                r = client.get(url)
+                if r.status_code >= 500:
+                    ch.evaluations += 1
+                    ch.oracle_failures.append({"kind": "e2e", "url": url, "header": None, "clock": iso,
+                                               "what": f"status {r.status_code} (5xx) for a URL the manifest advertises",
+                                               "observed": {"status": r.status_code}})
+                if r.status_code != 200:
+                    ch.count(f"manifest-url-not-200:{murl.split('?')[0]}")
+                    continue
+                res = Resource("seg", url, r.data, False, tag="manifest:" + murl.split("/")[1] + "/" + murl.split("/")[2],
+                               light=True)
+                hs = compact_headers(ctx, res, rng) if ctx.thorough else \
+                    SMALL_HEADERS + header_region_headers(rng, res.length, extra=2) + buffer_edge_headers(res.length)
+            n += 1
+            run_resource(ctx, client, ch, res, hs, iso)
+    clk.set(_utc(CLOCK0))
+    if n < 8:
+        ch.errors.append(f"only {n} media URLs could be followed from the manifests")
+
+
+def class_state():
+    """repr of the class-level (shared, mutable) attributes of the handler classes on the path"""
+    from dashlive.server.requesthandler import base, media_requests
+    out = {}
+    for cls in (base.RequestHandlerBase, media_requests.MediaRequestBase, media_requests.LiveMedia,
+                media_requests.OnDemandMedia, media_requests.ServeMpsMedia):
+        for k, v in vars(cls).items():
+            if k.startswith("__") or callable(v) or isinstance(v, (staticmethod, classmethod, property)):
+                continue
+            out[f"{cls.__name__}.{k}"] = hash(repr(v))
+    return out
+
+
 def run_e2e(ctx, ch: Channel):
     import appboot
     app = appboot.get_app(("bbb", "tears"))
     client = app.client()
     rng = ctx.rng("e2e")
+    state0 = class_state()
     with appboot.Clock(CLOCK0) as clk:
         resources = e2e_resources(ctx, app, client)
         if len(resources) < 5:
@@ -1190,8 +1507,21 @@ def run_e2e(ctx, ch: Channel):
         if sum(1 for t, _ in groups if t != "option-vectors") < 2:
             ch.errors.append(f"fewer than 2 groups of URLs sharing a stored fragment could be built ({groups})")
         grng = ctx.rng("e2e-group-run")
+        other = app.client()        # a second client (own cookie jar) takes every other request
         for tag, urls in groups:
-            run_group(ctx, client, ch, tag, urls, grng)
+            run_group(ctx, client, ch, tag, urls, grng, other)
+        run_stream_defaults(ctx, app, client, clk, ch, ctx.rng("e2e-stream-defaults"))
+        run_manifest_following(ctx, app, client, clk, ch, ctx.rng("e2e-manifests"))
+        # re-issue earlier requests at the end of the whole history, against a fresh full representation
+        for res in [r for r in resources if r.kind == "seg"][:3] + [r for r in resources if r.kind == "od"][:1]:
+            fresh = res.full if res.kind == "od" else other.get(res.url).data
+            if fresh != res.full:
+                ch.count("un-ranged-representation-changed-since-the-first-request")
+            again = Resource(res.kind, res.url, fresh, res.mandatory, tag="re-issued", light=True)
+            run_resource(ctx, other, ch, again, SMALL_HEADERS + buffer_edge_headers(again.length), CLOCK0)
+    for k in sorted(set(state0) | set(class_state())):
+        if state0.get(k) != class_state().get(k):
+            ch.count(f"class-level-state-changed:{k}")
 
 
 # --------------------------------------------------------------------------
@@ -1203,7 +1533,8 @@ def channels(ctx):
         "real RequestHandlerBase.get_http_range(len) in a Flask test request context vs the Lean model: "
         "first-last/first-/-suffix for all combinations of {0,1,2,len-2..len+1,len/2,2^31,2^63-1..2^63+1,1e20} "
         "x 12+ lengths (0..2^63), lenient spellings, a malformed list (units, several ranges, signs, spaces, "
-        "empty parts, underscores, 4300-digit numbers, Latin-1), every Latin-1 code point in 8 positions, seeded "
+        "empty parts, underscores, 4300-digit numbers, Latin-1, escapes/entities/JSON/NUL, 64 KB and 1 MB values), "
+        "power-of-two and buffer-size boundaries +-1, every Latin-1 code point in 8 positions, seeded "
         "mutations; non-trivial = header reached the 206/416 decision; distinct by (header, length)"))
     cases = pure_cases(ctx)
     run_pure(cases, ch)
@@ -1236,7 +1567,10 @@ def channels(ctx):
         "(Jan 1 00:00:00 / first minute / daytime, Dec 31 23:59:59, Feb 29, Mar 1 leap and non-leap, first of a "
         "month, first minute of a day, ordinary) + seeded clocks x start kinds (epoch, year, month, today, now, "
         "explicit Z, explicit +05:30, stream started 23 s ago); a 5xx met while looking for the available segment "
-        "is a failure; small header set on every pair, compact/full set on a seeded sample. "
+        "is a failure; small header set on every pair, compact/full set on a seeded sample; plus sub-second phases, far "
+        "past/future clocks, stream ages around the time-shift depth and loop boundaries. A stream with stored stream "
+        "defaults requested without options; media URLs and on-demand byte ranges followed exactly as the manifests "
+        "spell them; a second client; earlier requests re-issued at the end. "
         "non-trivial = 206 or 416; distinct by (url, header[, preceding url])"))
     try:
         run_e2e(ctx, ch2)
@@ -1261,7 +1595,7 @@ def run_case(case):
         import appboot
         app = appboot.get_app(("bbb", "tears"))
         client = app.client()
-        with appboot.Clock(case.get("clock", CLOCK0)):
+        with appboot.Clock(_utc(case.get("clock") or CLOCK0)):
             if any(u.startswith("/mps/") for u, _ in case.get("history", []) + [[case["url"], None]]):
                 _ensure_mps(app)
             why, o = replay_sequence(client, case["url"], hdr, case.get("history", []))
@@ -1270,11 +1604,16 @@ def run_case(case):
             return why is not None, {"what": why, "status": o["status"], "content_range": o["cr"],
                                      "content_length": o["clen"], "body_len": len(o["body"]),
                                      "history": case.get("history", [])}
+    if case.get("kind") == "e2e" and case.get("stream_defaults") and not case.get("_defaults_applied"):
+        import appboot
+        sd = case["stream_defaults"]
+        with stream_defaults(appboot.get_app(("bbb", "tears")), sd["stream"], sd["defaults"]):
+            return run_case(dict(case, _defaults_applied=True))
     if case.get("kind") == "e2e":
         import appboot
         app = appboot.get_app(("bbb", "tears"))
         client = app.client()
-        with appboot.Clock(case.get("clock", CLOCK0)):
+        with appboot.Clock(_utc(case.get("clock") or CLOCK0)):
             url = case["url"]
             if "/odvod/" in url:
                 parts = url.split("?")[0].split("/")
@@ -1349,7 +1688,7 @@ def replay(ctx, payload):
     if "header" not in f and "header_repeat" not in f:
         return {"fails": False, "note": "replay names a broken obligation, no input", "payload": payload.get("broken")}
     fails, det = run_case(f)
-    return {"fails": fails, "case": {k: f.get(k) for k in ("kind", "url", "header", "length", "clock", "history") if k in f}, **det}
+    return {"fails": fails, "case": {k: f.get(k) for k in ("kind", "url", "header", "length", "clock", "history", "stream_defaults") if k in f}, **det}
 
 
 def replay_finding(ctx, finding):
